@@ -118,36 +118,48 @@ def keys(run, p, kc):
 
 
 def datepath(run, p, kc):
-    run.rule('C09-DATEPATH', 'every to_dict_value path that emits self.value passes it through the date-stringifying base method '
-                             '(Constraint.to_dict_value) or str(); a raw datetime would make json.dumps raise')
+    import datetime as dt
+    import json
+    from ..pyeval import Interp, Obj, Unsupported, Raised
+    run.rule('C09-DATEPATH', 'to_dict_value of every constraint class, evaluated with date, datetime and plain values (and with and '
+                             'without a precision where the class takes one), returns what json.dumps accepts, with a date bound '
+                             'rendered by str(); a raw datetime would make json.dumps raise')
     n = 0
     for kind, c in sorted(kc.items()):
-        w = c.methods.get('to_dict_value')
+        w = p.lookup_method(c.qn, 'to_dict_value')
         if w is None:
-            continue
-        for r in ast.walk(w.node):
-            if not (isinstance(r, ast.Return) and r.value is not None):
-                continue
-            n += 1
-            raw = []
-            covered = set()
-            for x in ast.walk(r.value):
-                if isinstance(x, ast.Call) and (norm(x.func) in ('Constraint.to_dict_value', 'str') or
-                                                (isinstance(x.func, ast.Attribute) and x.func.attr == 'to_dict_value'
-                                                 and norm(x.func.value).startswith('super('))):
-                    for y in ast.walk(x):
-                        covered.add(id(y))
-            for x in ast.walk(r.value):
-                if isinstance(x, ast.Attribute) and norm(x) == 'self.value' and id(x) not in covered:
-                    raw.append(x)
-            run.ob('C09-DATEPATH', '%s::%s::%s' % (w.rel, w.short, norm(r)[:40]), not raw,
-                   '%s: `%s` %s' % (w.short, norm(r)[:60], 'stringifies dates' if not raw else 'emits self.value raw (a date bound is not JSON serialisable)'),
-                   fn=w, node=r)
-    b = p.method('Constraint', 'to_dict_value')
-    src = ast.unparse(b.node)
-    run.ob('C09-DATEPATH', '%s::%s' % (b.rel, b.short), 'str(self.value)' in src and 'datetime.date' in src,
-           'the base method renders date and datetime values with str()', fn=b, nontrivial=False)
-    run.floor('C09-DATEPATH', n, 4)
+            raise AnalysisError('constraint class %s has no to_dict_value' % c.name)
+        dated = kind in ('min', 'max')
+        values = [dt.date(2020, 2, 29), dt.datetime(2020, 2, 29, 1, 2, 3, 456)] if dated else []
+        values += [{'min': 5, 'max': 5.5, 'sign': 'positive', 'type': 'int', 'max_nulls': 0, 'no_duplicates': True,
+                    'allowed_values': ['a', 'b'], 'rex': ['^a$'], 'min_length': 0, 'max_length': 3}.get(kind, 1)]
+        bad = []
+        for v in values:
+            for prec in ((None, 'fuzzy') if dated else (None,)):
+                o = Obj(c)
+                o.attrs.update(kind=kind, value=v, precision=prec, comment=None)
+                I = Interp(p)
+                I.safe_modules = {'datetime'}
+                I.extra_names['datetime'] = dt
+                try:
+                    got = I.call(w, [], {'raw': False}, selfobj=o)
+                except (Unsupported, Raised) as e:
+                    raise AnalysisError('%s.to_dict_value is not evaluable: %s' % (c.name, e))
+                n += 1
+                inner = got.get('value') if isinstance(got, dict) else got
+                try:
+                    json.dumps(got)
+                    ok = inner == (str(v) if isinstance(v, dt.date) else v)
+                except TypeError:
+                    ok = False
+                if not ok:
+                    bad.append((v, prec, got))
+        run.ob('C09-DATEPATH', '%s::%s' % (w.rel, c.name + '.to_dict_value'), not bad,
+               '%s.to_dict_value over %d values%s' % (c.name, len(values), '' if not bad else
+                                                      ': value %r (precision %r) is written as %r, which %s' % (
+                                                          bad[0] + ('is not JSON serialisable' if isinstance(bad[0][0], dt.date) else 'is not the value',))),
+               fn=w)
+    run.floor('C09-DATEPATH', n, 12)
 
 
 def datetype(run, p):
